@@ -4,7 +4,7 @@ import GardenVerif.Lemmas.Session
 
 Statements over the session model M6 (`Session.handle`, Model/Session.lean: `handle_request` +
 `handle_request_in_worker` + `handle_run_request` + `run_command` + `eval`, on top of the evaluator
-model M4), for the code produced by the patches `session-fix-*` (`Cfg.patched`).
+model M4), for /repo HEAD (`Cfg.patched`, which contains the `session-fix-*` commits).
 
 Outcomes of handling one request: `ok` (the session keeps serving), `sessionPanic` (a panic site of
 json_session.rs / commands.rs / env.rs), `evalPanic` (a panic site inside `eval`, i.e. a
@@ -22,8 +22,9 @@ length. What is missing for the full statement is exactly evaluator safety for M
 value-stack / binding-block discipline invariant of `Machine.step`) AND its preservation by `:skip`
 and `:replace`, which is FALSE on the code as it is: see the witnesses
 `skip_breaks_value_discipline` and `replace_breaks_value_discipline` (known findings
-C09/skip-value-discipline, C09/replace-value-discipline). The defects repaired by the patches are
-witnessed on `Cfg.pinned` (`pinned_*`).
+C09/skip-value-discipline, C09/replace-value-discipline). The session-layer defects repaired by those commits
+are witnessed on `Cfg.pinned` = HEAD with them reverted (`pinned_*`); the if/match stale-continuation
+defect was repaired inside the evaluator (`Machine.dispatch`) and is covered by C07.
 -/
 set_option linter.unusedVariables false
 set_option linter.unusedSimpArgs false
@@ -254,7 +255,7 @@ def nosuch1 : Expr := .var 0 true "nosuch1"
 def nosuch2 : Expr := .var 1 true "nosuch2"
 def sumE : Expr := .binop 2 true .add nosuch1 nosuch2
 
-/-- HEAD: `:skip` with nothing pending hits `expect` (json_session.rs:629) — a session-layer panic.
+/-- Before the fix: `:skip` with nothing pending hits `expect` (json_session.rs:629) — a session-layer panic.
 The patched session answers it. -/
 theorem pinned_skip_idle_panics :
     (handle Cfg.pinned 100 Session.fresh (rq ":skip" none)).isSessionPanic = true ∧
@@ -289,7 +290,7 @@ theorem replace_breaks_value_discipline :
       = .evalPanic "`for` loop index should always be an `Int`" := by
   decide
 
-/-- HEAD: `:replace 5` with nothing pending pops the toplevel frame's placeholder value; a later
+/-- Before the fix: `:replace 5` with nothing pending pops the toplevel frame's placeholder value; a later
 `:type continue` finds the value stack empty (eval.rs "Should have a value from the last
 expression"). The patched `:replace` refuses and keeps the placeholder. -/
 theorem pinned_replace_pops_base :
@@ -298,19 +299,6 @@ theorem pinned_replace_pops_base :
       = .evalPanic "Should have a value from the last expression" ∧
     (run Cfg.patched 100 Session.fresh
       [rq ":replace 5" none (some (.int 1 true 5)), rq ":type continue" none (some (.cont 2 true))]).outcome
-      = .ok := by
-  decide
-
-/-- HEAD: `if 1 { 2 } else { 3 }` leaves a stale continuation under the restored entry;
-`:replace True` then pops one binding block too many (eval.rs:55). Patched: answered. -/
-theorem pinned_if_stale_continuation :
-    (run Cfg.pinned 100 Session.fresh
-      [rq "if 1 { 2 } else { 3 }" (some [.expr (.ifE 3 true (.int 0 true 1) [.int 1 true 2] (some [.int 2 true 3]))]),
-       rq ":replace True" none (some (.var 9 true "True"))]).outcome
-      = .evalPanic "pop_block: bindings empty" ∧
-    (run Cfg.patched 100 Session.fresh
-      [rq "if 1 { 2 } else { 3 }" (some [.expr (.ifE 3 true (.int 0 true 1) [.int 1 true 2] (some [.int 2 true 3]))]),
-       rq ":replace True" none (some (.var 9 true "True"))]).outcome
       = .ok := by
   decide
 
